@@ -1,5 +1,6 @@
 """C04 — subtracting time points inverts addition."""
 from . import ALL_MODES, T1_CAL, TICK, ADD_EXACT, REZONE, CAL_LEMMAS
+from . import tp_bounded
 
 ID = "C04"
 LEVEL = "proof"
@@ -32,6 +33,8 @@ EXPLANATION = (
     "throughout, for every pair of shapes; (a-b) == -(b-a), b+(a-b) == a, (p+d)-p == d "
     "are ghost programs over the contracts of __sub__, __add__, __mul__, __eq__, _cmp.")
 ASSUMPTIONS = [
+    "the bounded grid in this check adds nothing on a tree where every obligation is discharged; it is a safety net for changed code that leaves the verifier's reach (reported `undecided` by the proof part), labelled bounded, never counted as proved",
+   
     "the single recursive step (other > self) is verified against the function's own "
     "contract; its termination follows from the proved strictness of _cmp (the guard is "
     "false in the callee), argued, not a generated obligation",
@@ -39,3 +42,9 @@ ASSUMPTIONS = [
 LEVEL_TEXT = ("Proof for all pairs of shapes, any distance, across year 0; identities as "
               "lemmas over contracts.")
 LEVEL_NOTE = "Floats as reals; PyVC/z3/cvc5 trusted; quick tier proves 27 of 81 shape pairs."
+
+
+def bounded(tier, seed, repo):
+    """Safety net for a changed tree on which a function of the cone has fallen out of the
+    verifier's reach (the proof then says `undecided`); never counted as proved."""
+    return tp_bounded.check_c04(tier, seed, repo)
